@@ -296,13 +296,15 @@ class TreeEval(Harness):
             node = r[1]
             if V.v_tree(node) != spec_tree:
                 return [Failure(clause="view(construct_expression_tree(ast)) == sem_num(ast)", expected=spec_tree, observed=V.v_tree(node))]
-            for fv in GRID:
-                for gv in GRID:
-                    valuation = {("f", ("?x",)): fv, ("g", ()): gv}
+            for fv in GRID + [None]:
+                for gv in GRID + [None]:
+                    # None = the state does not define the fluent: it reads as 0 (also right after a non-zero value,
+                    # since the same tree object is re-used across states)
+                    valuation = {k: v for k, v in ((("f", ("?x",)), fv), (("g", ()), gv)) if v is not None}
                     _set_values(node, valuation)
                     got = RA.outcome(calculate, node)
                     try:
-                        exp = ("ok", SEM.val(spec_tree, {}, valuation))
+                        exp = ("ok", SEM.val(spec_tree, {}, valuation, missing_zero=True))
                     except SEM.Undefined:
                         exp = ("exc", "ZeroDivisionError")
                     ok = got == exp or (got[0] == exp[0] == "ok" and math.isclose(got[1], exp[1], rel_tol=1e-12, abs_tol=1e-12))
